@@ -5,11 +5,13 @@ from ..par import pmap
 from .c01 import merge_stats
 
 RULE = ('2 (thorough: 2-3) real threads, each making 1-2 calls of fields of one pipeline object Source >> Transform >> '
-        'CacheToRam(size in 1, 2, None; one or two cached fields) with equal and different keys, under a deterministic scheduler: '
-        'every entry of a user function and every acquisition of a MemoryCache lock is a gate where exactly the thread named by '
+        'CacheToRam(size in 1, 2, None; one or two cached fields), Merge(A, B) >> Transform >> CacheToRam, or Source >> Transform >> '
+        'CacheColumns(shard_size None, 2, 3; fresh storage per schedule), with equal and different keys (in a third of the scenarios '
+        'string keys whose equality test is itself a gate, each thread repeating a key), under a deterministic scheduler: '
+        'every entry of a user function and every acquisition of a MemoryCache lock (cache layers and the column cache\'s RAM table) is a gate where exactly the thread named by '
         'the schedule proceeds; schedules: a shuffled sample of all words of depth 6 (thorough: 8) over the thread ids plus random '
         'longer ones; the cache lock and table are wrapped by proxies logging the lock state at every table access. Oracle: every '
-        'call returns the sequential value, nothing raises, every table access is made by the lock holder. '
+        'call returns the sequential value and computes the sequential node hash, nothing raises, every table access is made by the lock holder. '
         'distinct_nontrivial = schedules run to completion')
 
 
